@@ -40,14 +40,14 @@ type BTWorld struct {
 	Dir    string // root directory of the disk engine
 	ErrLog []string
 	// transport faults
-	SendFail  func(kind string, n int) bool // return true to fail the n-th Send of a stream
+	SendFail func(kind string, n int) bool // return true to fail the n-th Send of a stream
 	// LazySend: the transport keeps the message it was handed and serialises it only when the
 	// handler has returned (gRPC: "it is not safe to modify the message after calling SendMsg;
 	// tracing libraries and stats handlers may use the message lazily").
 	LazySend bool
 	// SendGate runs inside the n-th Send of a ReadRows stream after the message was taken: a
 	// consumer that does something else (e.g. a write) before it reads on (flow control).
-	SendGate func(n int)
+	SendGate  func(n int)
 	SendYield bool
 	closed    bool
 	rows      []*yRows // every engine handle handed out (closed at Destroy)
